@@ -160,3 +160,42 @@ Proof.
   { pose proof (render_length x EmptyString) as H1. pose proof (render_length y EmptyString) as H2. rewrite H in H1. cbn in H1, H2. lia. }
   exact (proj1 (render_acc_inj x y _ _ Hx Hy eq_refl H Hlen)).
 Qed.
+
+(* ---- naming the groups of variables: a group with a single hint takes it, every other group takes the next generated name ---- *)
+Definition is_none {A} (o : option A) : bool := match o with None => true | Some _ => false end.
+Definition count_none (hints : list (option word)) : nat := List.length (filter is_none hints).
+(* the names given to the groups without a hint, in order *)
+Definition picks (hints : list (option word)) (names : list (option word)) : list (option word) :=
+  map snd (filter (fun p => is_none (fst p)) (combine hints names)).
+
+Lemma picks_name_groups hints : forall s, count_none hints <= List.length s ->
+  picks hints (name_groups hints s) = map Some (firstn (count_none hints) s).
+Proof.
+  induction hints as [|[h|] r IH]; intros s Hs.
+  - reflexivity.
+  - cbn [name_groups]. unfold picks, count_none in *. cbn [combine filter fst is_none]. apply IH. exact Hs.
+  - unfold count_none in Hs. cbn [filter is_none List.length] in Hs. destruct s as [|n s]; [cbn in Hs; lia|].
+    cbn [name_groups]. unfold picks, count_none. cbn [combine filter fst is_none map snd List.length firstn].
+    f_equal. apply IH. cbn [List.length] in Hs. unfold count_none. lia.
+Qed.
+
+Lemma NoDup_firstn {A} (l : list A) n : NoDup l -> NoDup (firstn n l).
+Proof.
+  revert n. induction l as [|x r IH]; intros [|n] H; cbn [firstn]; try constructor.
+  - inversion H as [|? ? Hx Hr]; subst. intros Hin. apply Hx. revert Hin. clear. revert n. induction r as [|y r IH]; intros [|n] Hin; cbn [firstn] in Hin; try contradiction.
+    destruct Hin as [->|Hin]; [now left|right; eapply IH; exact Hin].
+  - inversion H; subst. now apply IH.
+Qed.
+Lemma In_firstn {A} (l : list A) n x : In x (firstn n l) -> In x l.
+Proof. revert n. induction l as [|y r IH]; intros [|n] H; cbn [firstn] in H; try contradiction. destruct H as [->|H]; [now left|right; eapply IH; exact H]. Qed.
+
+Theorem groups_without_hint_get_fresh_names (L : list word) (hints : list (option word)) :
+  let names := name_groups hints (gen_take L (count_none hints)) in
+  NoDup (picks hints names) /\ forall o, In o (picks hints names) -> exists x, o = Some x /\ ~ In x L.
+Proof.
+  cbn zeta. rewrite picks_name_groups by (rewrite gen_names_never_run_dry; lia).
+  rewrite firstn_all2 by (rewrite gen_names_never_run_dry; lia). split.
+  - pose proof (gen_names_are_distinct L (count_none hints)) as ND. induction ND as [|x l Hx _ IHl]; cbn [map]; constructor; [|exact IHl].
+    intros Hin. apply in_map_iff in Hin as [y [E Hy]]. injection E as ->. contradiction.
+  - intros o Hin. apply in_map_iff in Hin as [x [<- Hx]]. exists x. split; [reflexivity|]. eapply gen_names_are_not_reserved. exact Hx.
+Qed.
